@@ -768,7 +768,24 @@ fn check_context(case: &Case, ctx: &mut Ctx) -> Option<Violation> {
         let mut rng = Rng::new(crate::rng::mix(&[files.len() as u64, case.stream().len() as u64, 29]));
         let plans: Vec<FilePlan> = files.iter().map(|f| gen_file_plan(&mut rng, f.len())).collect();
         ctx.stats.probe("context rows from a directory argument");
-        let out = ctx.exec(sim_dir_spec(case, &dir, &paths, &files, &plans));
+        let mut spec = sim_dir_spec(case, &dir, &paths, &files, &plans);
+        if case.stream().len() % 3 != 0 {
+            // the order of the listing is the simulator's (hook H3) in two scenarios out of
+            // three, the file system's in the third; the oracle reads it off the rows
+            let mut entries: Vec<String> = paths.iter().filter(|p| !p.starts_with(&format!("{dir}/sub/"))).cloned().collect();
+            if entries.len() < paths.len() {
+                entries.push(format!("{dir}/sub"));
+            }
+            rng.shuffle(&mut entries);
+            spec.dirs = vec![DirSrc {
+                path: dir.clone(),
+                entries,
+                open_fails: None,
+                entry_fault: None,
+            }];
+            ctx.stats.probe("directory listed in an order decided by the simulator");
+        }
+        let out = ctx.exec(spec);
         let _ = std::fs::remove_dir_all(&dir);
         let _ = std::fs::remove_dir_all(&target);
         (out, paths)
